@@ -27,7 +27,8 @@ def slc1(ctx: Ctx) -> None:
     if not inner or not outer:
         raise AnalysisError("SLC-1: outer_frame/inner_frame bindings vanished")
     # the limit may be read once into a local
-    lim_names = {"spec.limit"} | {norm(a.targets[0]) for a in ast.walk(fn) if isinstance(a, ast.Assign) and norm(a.value) == "spec.limit"}
+    lim_names = {"spec.limit"} | {norm(a.targets[0]) for a in ast.walk(fn) if isinstance(a, ast.Assign) and norm(a.value) == "spec.limit"} \
+        | {norm(a.target) for a in ast.walk(fn) if isinstance(a, ast.NamedExpr) and norm(a.value) == "spec.limit"}
     head, tail = [], []
     needs_len: Dict[int, str] = {}
 
@@ -48,7 +49,9 @@ def slc1(ctx: Ctx) -> None:
     for s_ in ast.walk(fn):
         # del frames[limit:]  /  frames = frames[:limit]   keep the head;   del frames[:-limit]  /  frames = frames[-limit:]   keep the tail
         sl = None
-        if isinstance(s_, ast.Delete) and isinstance(s_.targets[0], ast.Subscript) and norm(s_.targets[0].value) == "frames" and isinstance(s_.targets[0].slice, ast.Slice):
+        # frames[a:b] = () / []  is  del frames[a:b]
+        is_del = isinstance(s_, ast.Delete) or (isinstance(s_, ast.Assign) and len(s_.targets) == 1 and isinstance(s_.value, (ast.Tuple, ast.List)) and not s_.value.elts)
+        if is_del and isinstance(s_.targets[0], ast.Subscript) and norm(s_.targets[0].value) == "frames" and isinstance(s_.targets[0].slice, ast.Slice):
             sl = s_.targets[0].slice
             lo, up = bound_form(sl.lower), bound_form(sl.upper)
             if sl.upper is None and lo == "k":
@@ -188,6 +191,10 @@ def _slc2_until(ctx: Ctx, mod: Mod, until: ast.AST, inner: str) -> None:
         k, v = st.run(body, {})
         if k == "return" and v is not None:
             sl = [c for c in ast.walk(v) if isinstance(c, ast.Call) and norm(c.func) == "StackSlice"]
+            # functools.partial(extract, **opts)(<slice>) is extract(<slice>, **opts)
+            if isinstance(v, ast.Call) and isinstance(v.func, ast.Call) and norm(v.func.func) in ("functools.partial", "partial") and v.func.args and norm(v.func.args[0]) == "extract" \
+                    and len(v.func.args) == 1:
+                v = ast.Call(func=v.func.args[0], args=list(v.args), keywords=list(v.func.keywords) + list(v.keywords))
             if isinstance(v, ast.Call) and norm(v.func) == "extract" and len(sl) == 1 and not sl[0].args:
                 return ("SLICE", tuple(sorted((k_.arg, norm(k_.value)) for k_ in sl[0].keywords)))
             return ("RETURN", norm(v)[:60])
@@ -218,6 +225,9 @@ def _slc2_until(ctx: Ctx, mod: Mod, until: ast.AST, inner: str) -> None:
     else:
         assign, out, want = bad
         shown = {k_: v_ for k_, v_ in assign.items() if v_ or k_ not in known}
+        if out[0] == "RETURN":
+            ctx.R.undecided("SLC-2", f"extract_until returns `{out[1]}`, which is not recognisably extract(StackSlice(...)) (case {shown})")
+            return
         if want[0] == "RAISE" and assign[F_]:
             ctx.R.fail("SLC-2", mod, until, "extract_until must raise when the frame-valued limit is not an indirect caller of inner_frame", construct="extract_until frame-limit: no raise")
         elif assign[F_]:
@@ -630,6 +640,13 @@ def ctx678(ctx: Ctx) -> None:
             ctx.R.undecided("CTX-6", "call of format_funcargs on closure cells not found")
     else:
         lits2 = {n_.value for n_ in ast.walk(g) if isinstance(n_, ast.Constant) and isinstance(n_.value, str)}
+        # ... or in a module-level function the glue calls (transitively): a lookup moved into a helper
+        called = {c_.func.id for c_ in ast.walk(g) if isinstance(c_, ast.Call) and isinstance(c_.func, ast.Name)}
+        for _ in range(3):
+            for d_ in mod.tree.body:
+                if isinstance(d_, ast.FunctionDef) and d_.name in called:
+                    lits2 |= {n_.value for n_ in ast.walk(d_) if isinstance(n_, ast.Constant) and isinstance(n_.value, str)}
+                    called |= {c_.func.id for c_ in ast.walk(d_) if isinstance(c_, ast.Call) and isinstance(c_.func, ast.Name)}
         if "args" in lits2 and "kwds" in lits2:
             ctx.R.undecided("CTX-6", "closure cells are located in an unrecognised way")
         else:
